@@ -60,6 +60,10 @@ type ResponderInterceptor struct {
 
 	streams   map[uint32]*localStream
 	streamsMu sync.Mutex
+
+	// resends in progress; closed and wg.Add are guarded by streamsMu
+	closed bool
+	wg     sync.WaitGroup
 }
 
 type localStream struct {
@@ -95,7 +99,15 @@ func (n *ResponderInterceptor) BindRTCPReader(reader interceptor.RTCPReader) int
 				continue
 			}
 
-			go n.resendPackets(nack)
+			n.streamsMu.Lock()
+			if !n.closed {
+				n.wg.Add(1)
+				go func() {
+					defer n.wg.Done()
+					n.resendPackets(nack)
+				}()
+			}
+			n.streamsMu.Unlock()
 		}
 
 		return i, attr, err
@@ -159,6 +171,7 @@ func (n *ResponderInterceptor) UnbindLocalStream(info *interceptor.StreamInfo) {
 // Close releases all resources held by the ResponderInterceptor.
 func (n *ResponderInterceptor) Close() error {
 	n.streamsMu.Lock()
+	n.closed = true
 	streams := n.streams
 	n.streams = map[uint32]*localStream{}
 	n.streamsMu.Unlock()
@@ -168,6 +181,9 @@ func (n *ResponderInterceptor) Close() error {
 		stream.rtpBuffer.Clear()
 		stream.rtpBufferMutex.Unlock()
 	}
+
+	// a retransmission that was already being written finishes before Close returns
+	n.wg.Wait()
 
 	return nil
 }
